@@ -4,6 +4,9 @@ import (
 	"bytes"
 	"crypto/cipher"
 	"crypto/elliptic"
+	"encoding/base64"
+	"encoding/hex"
+	"encoding/pem"
 	"fmt"
 	"math/big"
 
@@ -334,6 +337,23 @@ func rebuildTokenKeyDER(r *core.Rand, n *big.Int, e int, pssAlg, rsaAlg []byte) 
 				out = append(out, spki(bitstr(u, sh[1:])), spki(bitstr(u, sh)))
 			}
 		}
+	}
+	// AlgorithmIdentifier with something more: an extra element inside the SEQUENCE after the parameters, the parameters
+	// SEQUENCE extended by an element, NULL parameters doubled
+	for _, alg := range [][]byte{pssAlg, rsaAlg} {
+		body := alg[2:]
+		if alg[1]&0x80 != 0 {
+			body = alg[2+int(alg[1]&0x7f):]
+		}
+		for _, extra := range [][]byte{{5, 0}, {2, 1, 0}, {0x30, 0}, {4, 2, 1, 2}, {5, 0, 5, 0}} {
+			out = append(out, seq(tlv(0x30, append(clone(body), extra...), 0), bitstr(0, good)))
+		}
+	}
+	// the key as TEXT: base64 (standard, URL, unpadded), hex, PEM - none of them is DER
+	{
+		der := seq(pssAlg, bitstr(0, good))
+		out = append(out, []byte(base64.StdEncoding.EncodeToString(der)), []byte(base64.URLEncoding.EncodeToString(der)), []byte(base64.RawURLEncoding.EncodeToString(der)),
+			[]byte(hex.EncodeToString(der)), pem.EncodeToMemory(&pem.Block{Type: "PUBLIC KEY", Bytes: der}))
 	}
 	// the empty structures of the smallest sizes
 	out = append(out, []byte{0x30, 0x04, 0x30, 0x00, 0x03, 0x00}, []byte{0x30, 0x00}, []byte{0x30, 0x02, 0x30, 0x00}, []byte{0x30, 0x05, 0x30, 0x00, 0x03, 0x01, 0x00})
